@@ -60,13 +60,17 @@ def do_case(ctx, inp):
     script = {"recorder": lambda p, objs: [(np.array([10 + j + 100 * k for j in range(n)]), k, 5) for k, _ in enumerate(objs)],
               "none": lambda p, objs: [(None, 0, 4) for _ in objs],
               "exact": brute_solver(4096),
-              "raise": lambda p, objs: (_ for _ in ()).throw(RuntimeError("solver failed"))}[mode]
+              # whatever kind of exception the caller's solver ends with (a backend error, an adapter tripping over `None`, …)
+              "raise": lambda p, objs: (_ for _ in ()).throw(
+                  {"RuntimeError": RuntimeError, "TypeError": TypeError, "AttributeError": AttributeError, "NameError": NameError,
+                   "ValueError": ValueError, "KeyError": KeyError, "ZeroDivisionError": ZeroDivisionError,
+                   "IndexError": IndexError, "Exception": Exception}[inp.get("exc", "RuntimeError")]("solver failed"))}[mode]
     rec = Recorder(script)
     if not is_cfg or inp.get("via") == "solve":
         try:
             res = list(o.solve(objectives, solver=rec, include_virtual_variables=iv))
-        except RuntimeError:
-            if mode != "raise":
+        except Exception as e_:
+            if mode != "raise" or type(e_).__name__ != inp.get("exc", "RuntimeError"):
                 raise
             ctx.tags["solve-propagates-solver-exception"] += 1
             return
@@ -185,4 +189,5 @@ def run(ctx):
         do_case(ctx, {"ast": a, "objectives": objectives, "mode": rng.choice(["recorder", "recorder", "exact", "none", "raise"]),
                       "include_virtual": rng.random() < 0.5, "only_leafs": rng.random() < 0.5,
                       "via": rng.choice(["solve", "select"]),
+                      "exc": rng.choice(["RuntimeError", "TypeError", "AttributeError", "NameError", "ValueError", "KeyError", "ZeroDivisionError", "IndexError", "Exception"]),
                       **({"stored": rng.choice(["deepcopy", "b64"]), "used_first": rng.random() < 0.8} if rng.random() < 0.2 else {})})
